@@ -109,7 +109,15 @@ func runC15(c *Ctx) {
 			}
 		})
 		// closes the transport on all paths
-		if ok {
+		// ... or through a deferred close of its own, registered on every path that registers the recovering
+		// closure (deferred calls all run, whatever their order, once the function is left or panics)
+		ownDefer := false
+		for _, ci := range flow.CallInstrs(loopFn) {
+			if d, isD := ci.(*ssa.Defer); isD && d != recDefer && isTransportClose(d) && (flow.Dominates(d, recDefer) || (flow.Dominates(recDefer, d) && d.Block() == recDefer.Block())) {
+				ownDefer = true
+			}
+		}
+		if ok && !ownDefer {
 			if p := flow.PathAvoiding(recClosure, nil, flow.IsReturn, isTransportClose); p != nil {
 				r.Fail("R1", key, c.pos(recDefer), "a path through the recovering closure does not close the transport", c.witness(p)...)
 				ok = false
@@ -131,6 +139,9 @@ func runC15(c *Ctx) {
 				}
 				if isBuiltinCall(ci, "len") || isBuiltinCall(ci, "cap") {
 					continue
+				}
+				if _, isD := ci.(*ssa.Defer); isD && flow.Dominates(ci, recDefer) {
+					continue // a clean-up registered just before: nothing runs at this point
 				}
 				if !flow.Dominates(recDefer, ci) {
 					r.Fail("R1", key, c.pos(ci), fmt.Sprintf("call %s is not dominated by the recovering defer: a panic or early return there leaves the connection open / unprotected", short(flow.Describe(ci), 80)))
@@ -549,6 +560,36 @@ func (c *Ctx) c15Report(loopFn *ssa.Function) {
 	if !bad {
 		r.Ok("R4", key, c.pos(read), "no path from the read-error edge back to the read")
 	}
+	// several reads of the loop (a first read in front of it, the next one at the end of the body) whose errors
+	// are merged and tested in one place: the merged value is the read error
+	{
+		readErrs := map[ssa.Value]bool{}
+		for _, ci := range flow.CallInstrs(loopFn) {
+			if call, ok := ci.(*ssa.Call); ok {
+				if g := flow.StaticCallee(call); g != nil && (g == rm || c.reachesFunc(g, rm, map[*ssa.Function]bool{})) {
+					if e := errorResult(call); e != nil {
+						readErrs[e] = true
+					}
+				}
+			}
+		}
+		for _, ref := range flow.Referrers(errv) {
+			ph, isPhi := ref.(*ssa.Phi)
+			if !isPhi || len(readErrs) < 2 {
+				continue
+			}
+			all := true
+			for _, e := range ph.Edges {
+				if !readErrs[e] {
+					all = false
+				}
+			}
+			if all {
+				errv = ph
+				break
+			}
+		}
+	}
 	// the report (in the loop function's error region, or in a helper the error is handed to there)
 	key = fname(loopFn) + ":error-report"
 	ok, at, why := c.reportOffered(loopFn, errv, func(b *ssa.BasicBlock) bool { return eb[b] }, 0)
@@ -629,6 +670,12 @@ func (c *Ctx) reportOffered(fn *ssa.Function, errv ssa.Value, inRegion func(*ssa
 				if ta, isTA := x.Tuple.(*ssa.TypeAssert); isTA && x.Index == 1 && !neg && flow.TypeIs(ta.AssertedType, pkgDiam, "ErrorReporter") {
 					okGuard = true
 				}
+				// … made in a helper that returns (reporter, ok) straight from that assertion
+				if hc, isCall := x.Tuple.(*ssa.Call); isCall && !neg {
+					if ta := c.reporterAssertIn(hc, x.Index); ta != nil {
+						okGuard = true
+					}
+				}
 			}
 			if !okGuard {
 				return false, g.If, fmt.Sprintf("the error report is additionally guarded by %s (taken=%v): some undecodable inputs are not reported", short(g.If.Cond.String(), 60), g.Taken)
@@ -657,6 +704,11 @@ func (c *Ctx) reportOffered(fn *ssa.Function, errv ssa.Value, inRegion func(*ssa
 			src := rv
 			if ex, ok := src.(*ssa.Extract); ok {
 				src = ex.Tuple
+			}
+			if hc, isCall := src.(*ssa.Call); isCall {
+				if ta := c.reporterAssertIn(hc, 1); ta != nil {
+					src = ta
+				}
 			}
 			if ta, ok := src.(*ssa.TypeAssert); ok {
 				if !c.handlerWithFallback(ta.X, 0) {
@@ -712,6 +764,33 @@ func (c *Ctx) reportOffered(fn *ssa.Function, errv ssa.Value, inRegion func(*ssa
 		}
 	}
 	return false, nil, "no ErrorReporter.Error call on the read-error edge: undecodable input is dropped silently"
+}
+
+// reporterAssertIn: call is a library helper returning (reporter, ok) where, on every return, ok (result okIdx) and
+// the reporter (result 0) are the two results of one comma-ok assertion to ErrorReporter; returns that assertion.
+func (c *Ctx) reporterAssertIn(call *ssa.Call, okIdx int) *ssa.TypeAssert {
+	h := flow.StaticCallee(call)
+	if h == nil || h.Blocks == nil || !c.P.IsLibrary(h) || h.Signature.Results().Len() != 2 || okIdx != 1 {
+		return nil
+	}
+	var ta *ssa.TypeAssert
+	for _, b := range h.Blocks {
+		ret, ok := b.Instrs[len(b.Instrs)-1].(*ssa.Return)
+		if !ok || b == h.Recover {
+			continue
+		}
+		e0, ok0 := ret.Results[0].(*ssa.Extract)
+		e1, ok1 := ret.Results[1].(*ssa.Extract)
+		if !ok0 || !ok1 || e0.Tuple != e1.Tuple || e0.Index != 0 || e1.Index != 1 {
+			return nil
+		}
+		t, isTA := e0.Tuple.(*ssa.TypeAssert)
+		if !isTA || !t.CommaOk || !flow.TypeIs(t.AssertedType, pkgDiam, "ErrorReporter") || (ta != nil && ta != t) {
+			return nil
+		}
+		ta = t
+	}
+	return ta
 }
 
 func loadedGlobal(v ssa.Value) *ssa.Global {
